@@ -6,15 +6,22 @@ PROP = dict(
     rule="two producing nodes a and b share a prefix and then diverge (1..12 or 28..40 momentums each, with ZNN sends as content and slot gaps; the branch the receiver is not on overtakes it now and then), "
          "a third node (wired like zenon.NewZenon) starts on a's chain and receives batches from both through ChainBridge.InsertChain: plain extensions and forks of every depth 0..40 ending shorter / equal / "
          "one longer / at the source frontier, every kind of batch preceded by 0..6 already known momentums, all-known re-deliveries, an element corrupted at any position of the unknown (sometimes the known) part "
-         "(bad signature, momentum signed by a non-elected pillar, changes hash flipped and re-signed, content header not matching the delivered block, missing / extra / tampered / swapped account block), "
+         "(bad signature, momentum signed by a non-elected pillar, changes hash flipped and re-signed, content header not matching the delivered block, missing / extra / tampered / swapped account block; "
+         "surplus account blocks of every kind: a made-up send block of an embedded contract (never looked at by InsertChain) added or put in the place of a named block, a VALID signed user block generated on the producer in the very state "
+         "the receiver is in at that point - of an account with and without blocks in the momentum -, a block named by a later momentum of the batch or beyond, an exact or a tampered duplicate of a named block in front of / behind it), "
          "duplicates, a removed middle element, a batch starting above the fork point, reversed batches, crafted heights (0, frontier+k, 2^64-1), the empty batch. The receiver's unconfirmed pool is filled "
          "through the verified path (blocks of busy and of quiet accounts acknowledging its frontier or a recent own momentum) and batches are delivered that carry those very blocks: included by an honest "
          "producer where they are valid on its chain, included without verification (force-added / written into the content) where they are not (side chains forking below the acknowledged momentum). "
-         "The local chain evolves with what it accepts. Observables: result class, index, frontier before/after, stored bytes, pool before/after. A case is distinct by (local chain suffix, pool, batch).",
+         "Another writer served first on the insert lock (a ChainBridge over a wrapper of the node's chain whose AcquireInsert runs a callback once before delegating): the node's own pillar producing 1..3 momentums "
+         "from its pool, the chain the node follows growing by 1..2 momentums through a second InsertChain, the first part of the very batch arriving twice; the observed batch ends one below / at / one above / further above the frontier "
+         "the node has UNDER THE LOCK and forks 0..35 below it (deep histories: 29..31 below the frontier before the other writer), with known prefixes and now and then an invalid element. "
+         "The local chain evolves with what it accepts and produces. Observables: result class, index, frontier before/after, stored bytes, pool before/after. A case is distinct by (local chain suffix, pool, batches of the writer served first, batch).",
     explanation="Theorems (for every pair of verification oracles, every local chain and pool, every batch): under the pool invariant (every pooled block passed verification on a state the chain still extends) "
                 "the resulting chain is a prefix of the old one extended only by momentums that passed verification, with every account block verified then or while pooled, and the invariant holds again; the same over whole "
                 "histories of deliveries and received blocks; a rollback leaves nothing of the old pool (and the variant that keeps it adopts an unverified block: refuted); a failure reports the index, in the delivered batch, "
                 "of the element that failed; known momentums change nothing; own momentums are abandoned only if the batch links to an own momentum at most 30 below the frontier and ends above it; "
+                "whatever writer was served first on the insert lock, all of this is decided on the state under the lock (after the node's own pillar produced, the delivered chain must end above the pillar's last momentum), "
+                "and the variant that reads the frontier store before it locks leaves the chain for an equally long one (refuted); "
                 "InsertChain never panics (after fix 777dfea; the old code is refuted). Finding F11: the rollback precedes verification - refuted in general, proved when the delivered chain verifies in order. "
                 "Modelled: protocol/chain_bridge.go InsertChain statement by statement (skip known, link check with nil target, depth 30, strictly longer, RollbackTo, block loop with the already-pooled skip and "
                 "ForceAddAccountBlockTransaction, ordered apply with index+start), accountPool.DeleteMomentum (pool dropped) / InsertMomentum (confirmed blocks leave) / force add (replaces the account's pooled blocks from that height), "
@@ -22,6 +29,8 @@ PROP = dict(
     assumptions=["full verification is two oracles: bvalid(chain, pool, block) = Supervisor.ApplyBlock, mvalid(chain, momentum) = Supervisor.ApplyMomentum; the tie instantiates them with the generator's knowledge of which element / block it corrupted or had included unverified",
                  "the unconfirmed pool is emptied by a rollback (accountPool.DeleteMomentum): explicit in the model (insert_chain ... clears:=true), compared with the implementation on every run (blocks pooled before and after a call that abandoned own momentums) and by the oracle rollback-drops-unconfirmed-pool",
                  "a block enters the pool only verified (AddAccountBlocks / InsertChain); BlockTypeContractSend blocks are not modelled (the loop skips them; none is generated)",
+                 "momentum content vs delivered blocks (verifier.Momentum: as many distinct delivered blocks as headers, every header names one) is part of the oracle mvalid; it is stated and proved on the concrete verifier model in C05 (C05_accepted_content_exact) and, on the real node, by the oracles adopted-momentum-delivered-with-exactly-its-account-blocks and pool-holds-nothing-that-rode-along-with-an-adopted-momentum",
+                 "writers of one node are serialised by the insert lock: another writer is a state transformer applied before InsertChain reads (insert_chain_locked); the harness realises it deterministically by running the other writer from a hook in front of the real AcquireInsert",
                  "the local store is a well-formed chain (consecutive heights, linked hashes) where the theorems say wf_chain",
                  "momentum hashes are compared through 40-bit identifiers in the correspondence check"],
 )
@@ -30,6 +39,6 @@ META = dict(
          "(induction over the batch and over histories), tied on every run to three real nodes exchanging forks, corrupted and malformed batches with known prefixes, and chains that carry the receiver's own unconfirmed blocks; "
          "the F9 panic was confirmed, fixed (777dfea) and proved absent, the F11 ordering defect is carried as refuted + partial.",
     design_ref="DESIGN.md section 5, C16",
-    note="Known finding insertchain-rollback-before-verify (F11): reproduced by the harness on every run; C16_leave_only_for_valid_refuted / _partial. Downloader/fetcher queues are not modelled (they only choose the batches). The account-pool priority rule (non-forced adds) and rebuild errors are outside the model. All theorems closed under the global context.",
+    note="Known finding insertchain-rollback-before-verify (F11): reproduced by the harness on every run; C16_leave_only_for_valid_refuted / _partial. Downloader/fetcher queues are not modelled (they only choose the batches and compete for the insert lock: modelled as a writer served first). The account-pool priority rule (non-forced adds) and rebuild errors are outside the model. All theorems closed under the global context.",
     technique="Coq proof (induction over delivered batches, list reasoning) + differential correspondence check on real nodes",
 )
